@@ -115,5 +115,5 @@ static void run_case(Rng& rng, uint64_t) {
     verif::count("merges_checked", g_merges - m0);
 }
 
-static void init() { verif::property_id() = "C07"; }
+static void init() { verif::property_id() = "C07"; verif::Ledger::get().prop = "C07"; }
 VERIF_MAIN_INIT(run_case, init)
